@@ -537,6 +537,12 @@ func (ex *Exec) loopClauses(l *Loop) *LoopSpec {
 	if ls != nil {
 		m = *ls
 		m.Invariants = nil
+		m.Exits = nil
+		for _, e := range ls.Exits {
+			if ex.q.propActive(e.OnlyProp) {
+				m.Exits = append(m.Exits, e)
+			}
+		}
 	}
 	for _, src := range []*LoopSpec{all, ls} {
 		if src == nil {
